@@ -244,11 +244,25 @@ func r1r2r3(c *core.Ctx, rre, big, ql *core.Fn) {
 
 	// the replies RESTORE's error classification must recognise (Redis 2.8 and >= 3.0 busy-key replies, payload rejection)
 	seen := map[string]bool{}
+	collect := func(root ast.Node) {
+		core.Inspect(root, func(n ast.Node) bool {
+			if call, ok := n.(*ast.CallExpr); ok {
+				if b := pat.Expr("strings.Contains(_msg, _s)").Match(info, call, nil); b != nil {
+					if s, ok := core.StringConst(info, b["_s"].(ast.Expr)); ok {
+						seen[s] = true
+					}
+				}
+			}
+			return true
+		})
+	}
+	collect(body)
+	// classification predicates extracted into same-package helpers (isBusyKeyReply(msg) ...)
 	core.Inspect(body, func(n ast.Node) bool {
 		if call, ok := n.(*ast.CallExpr); ok {
-			if b := pat.Expr("strings.Contains(_err.Error(), _s)").Match(info, call, nil); b != nil {
-				if s, ok := core.StringConst(info, b["_s"].(ast.Expr)); ok {
-					seen[s] = true
+			if f := core.CalleeFunc(info, call); f != nil && f.Pkg() != nil && f.Pkg().Path() == rre.Pkg.PkgPath && f != big.Obj && f != ql.Obj {
+				if h := c.FnOf(f); h != nil && h.Decl.Body != nil {
+					collect(h.Decl.Body)
 				}
 			}
 		}
@@ -279,28 +293,13 @@ func r1r2r3(c *core.Ctx, rre, big, ql *core.Fn) {
 		return
 	}
 	tb := pat.Binds{"_e": eParam, "_ttl": ttlVar}
-	exp := findIf(info, body, func(cond ast.Expr) bool { return pat.Expr("_e.ExpireAt != 0").Match(info, cond, eb) != nil })
-	okTTL := false
-	if exp != nil {
-		n1, b1 := pat.Stmt("_now = uint64(time.Now().Add(conf.Options.ShiftTime).UnixNano())").Find(info, exp.Body, nil)
-		if n1 != nil {
-			b1["_e"], b1["_ttl"] = eParam, ttlVar
-			n2, _ := pat.Stmt("_now /= uint64(time.Millisecond)").Find(info, exp.Body, b1)
-			inner := findIf(info, exp.Body, func(cond ast.Expr) bool { return pat.Expr("_now >= _e.ExpireAt").Match(info, cond, b1) != nil })
-			if n2 != nil && inner != nil && inner.Else != nil {
-				f1, _ := pat.Stmt("_ttl = 1").Find(info, inner.Body, b1)
-				f2, _ := pat.Stmt("_ttl = _e.ExpireAt - _now").Find(info, inner.Else, b1)
-				okTTL = f1 != nil && f2 != nil
-			}
-		}
-	}
-	c.Check("R2.ttl", "ttlms/formula", rre.Decl.Pos(), okTTL, "ttlms = ExpireAt - (now + shift) in milliseconds, floored at 1 when already past (0 would mean 'no expiry' to RESTORE)")
+	ttlFormula(c, rre, eParam, ttlVar)
 	isPexpire := func(n ast.Node) bool {
 		call := doCmd(info, n, "pexpire")
 		return call != nil && pat.Expr(`_c.Do("pexpire", _e.Key, _ttl)`).Match(info, call, tb) != nil
 	}
 	noExpiry := func(b *cfg.Block, s int) bool {
-		return cfgq.EdgeEstablishes(b, s, func(f cfgq.Fact) bool {
+		return g.Establishes(b, s, func(f cfgq.Fact) bool {
 			return pat.Expr("_e.ExpireAt != 0").Match(info, f.Expr, eb) != nil && !f.Val || pat.Expr("_e.ExpireAt == 0").Match(info, f.Expr, eb) != nil && f.Val
 		})
 	}
@@ -397,6 +396,114 @@ func r1r2r3(c *core.Ctx, rre, big, ql *core.Fn) {
 	c.Expect("R3.policy", 9)
 }
 
+// ttlFormula checks how the relative TTL is derived from the absolute expiry.
+// The computation may live in RestoreRdbEntry or in a same-package helper that
+// receives e.ExpireAt; results may be assigned or returned.
+func ttlFormula(c *core.Ctx, rre *core.Fn, eParam ast.Node, ttlVar ast.Node) {
+	info := rre.Pkg.TypesInfo
+	const rule, key = "R2.ttl", "ttlms/formula"
+	usesNow := func(root ast.Node) bool {
+		n, _ := pat.Expr("time.Now()").Find(info, root, nil)
+		return n != nil
+	}
+	var root ast.Node
+	var expire ast.Node // the expression standing for the absolute expiry inside root
+	yields := func(stmt ast.Node, val string, b pat.Binds) bool { // `ttl = val` or `return val`
+		if n, _ := pat.Stmt("_ttl = "+val).Find(info, stmt, b); n != nil {
+			return true
+		}
+		n, _ := pat.Stmt("return "+val).Find(info, stmt, b)
+		return n != nil
+	}
+	if usesNow(rre.Decl.Body) {
+		root = rre.Decl.Body
+		expire = &ast.SelectorExpr{X: eParam.(*ast.Ident), Sel: ast.NewIdent("ExpireAt")}
+		// SelectorExpr built by hand has no type info: match through a pattern instead
+		expire = nil
+	} else {
+		// a helper called with e.ExpireAt
+		core.Inspect(rre.Decl.Body, func(n ast.Node) bool {
+			call, ok := n.(*ast.CallExpr)
+			if !ok || root != nil {
+				return true
+			}
+			f := core.CalleeFunc(info, call)
+			if f == nil || f.Pkg() == nil || f.Pkg().Path() != rre.Pkg.PkgPath {
+				return true
+			}
+			h := c.FnOf(f)
+			if h == nil || h.Decl.Body == nil || !usesNow(h.Decl.Body) {
+				return true
+			}
+			var ps []*ast.Ident
+			for _, fl := range h.Decl.Type.Params.List {
+				ps = append(ps, fl.Names...)
+			}
+			for i, a := range call.Args {
+				if pat.Expr("_e.ExpireAt").Match(info, a, pat.Binds{"_e": eParam}) != nil && i < len(ps) {
+					root, expire = h.Decl.Body, ps[i]
+				}
+			}
+			return true
+		})
+	}
+	if root == nil {
+		c.Undecidedf(rule, key, rre.Decl.Pos(), "cannot find where the relative TTL is computed from time.Now() and the entry's ExpireAt")
+		return
+	}
+	E := "_e.ExpireAt"
+	b := pat.Binds{"_e": eParam, "_ttl": ttlVar}
+	if expire != nil {
+		E = "_exp"
+		b = pat.Binds{"_exp": expire, "_ttl": ttlVar}
+	}
+	okNow := false
+	var nb pat.Binds
+	for _, form := range []string{
+		"_now = uint64(time.Now().Add(conf.Options.ShiftTime).UnixNano())",
+		"_now = uint64(time.Now().Add(conf.Options.ShiftTime).UnixNano()) / uint64(time.Millisecond)",
+		"_now = uint64(time.Now().Add(conf.Options.ShiftTime).UnixNano() / int64(time.Millisecond))",
+	} {
+		if n, bb := pat.Stmt(form).Find(info, root, b); n != nil {
+			nb = bb
+			if strings.Contains(form, "Millisecond") {
+				okNow = true
+			} else if d, _ := pat.Stmt("_now /= uint64(time.Millisecond)").Find(info, root, bb); d != nil {
+				okNow = true
+			} else if d, _ := pat.Stmt("_now = _now / uint64(time.Millisecond)").Find(info, root, bb); d != nil {
+				okNow = true
+			}
+			break
+		}
+	}
+	if nb == nil {
+		c.Check(rule, key, root.Pos(), false, "ttlms must be derived from now = time.Now().Add(ShiftTime) in milliseconds; the (shifted) current time is not computed that way")
+		return
+	}
+	inner := findIf(info, root, func(cond ast.Expr) bool {
+		return pat.Expr("_now >= "+E).Match(info, cond, nb) != nil
+	})
+	okBranches := false
+	if inner != nil {
+		past := yields(inner.Body, "1", nb)
+		var rest ast.Node = inner.Else
+		if rest == nil {
+			// early-return form: the remaining statements after the if
+			rest = root
+		}
+		future := yields(rest, E+" - _now", nb)
+		okBranches = past && future
+	} else if alt := findIf(info, root, func(cond ast.Expr) bool { return pat.Expr("_now < "+E).Match(info, cond, nb) != nil }); alt != nil {
+		future := yields(alt.Body, E+" - _now", nb)
+		var rest ast.Node = alt.Else
+		if rest == nil {
+			rest = root
+		}
+		okBranches = future && yields(rest, "1", nb)
+	}
+	c.Check(rule, key, root.Pos(), okNow && okBranches, "ttlms = ExpireAt - (now + shift) in milliseconds, floored at 1 when already past (0 would mean 'no expiry' to RESTORE)")
+}
+
 func findIf(info *types.Info, root ast.Node, match func(cond ast.Expr) bool) *ast.IfStmt {
 	var hit *ast.IfStmt
 	core.Inspect(root, func(n ast.Node) bool {
@@ -467,6 +574,25 @@ func r4r5(c *core.Ctx, big, ql, fl *core.Fn) {
 	info := big.Pkg.TypesInfo
 	spec := c01.ReaderSpec(false)
 	spec.Fields = map[string]bool{"RealMemberCount": true}
+	spec.IfacePrims = map[string]string{"ReadLength": "Len", "ReadString": "Str", "ReadByte": "U8", "ReadDouble": "Fix8", "ReadFloat": "FloatStr"}
+	inlineRdb := spec.Inline
+	spec.Inline = func(f *types.Func) bool {
+		// helpers of redis-shake/common that take the payload reader are expanded too
+		if f.Pkg() != nil && f.Pkg().Path() == big.Pkg.PkgPath && f != big.Obj && f != ql.Obj {
+			if sig, ok := f.Type().(*types.Signature); ok {
+				for i := 0; i < sig.Params().Len(); i++ {
+					t := sig.Params().At(i).Type()
+					if spec.Carrier(t) {
+						return true
+					}
+					if it, ok := t.Underlying().(*types.Interface); ok && it.NumMethods() > 0 {
+						return true
+					}
+				}
+			}
+		}
+		return inlineRdb(f)
+	}
 	// the type switch
 	var sw *ast.SwitchStmt
 	core.Inspect(big.Decl.Body, func(n ast.Node) bool {
@@ -512,6 +638,8 @@ func r4r5(c *core.Ctx, big, ql, fl *core.Fn) {
 			c.Undecidedf("R4.expand", key+"/grammar", cc.Pos(), "cannot extract the reads: %s", strings.Join(e.Undecided, "; "))
 		case got == ex.term:
 			c.Okf("R4.expand", key+"/grammar", cc.Pos(), "reads `%s`", got)
+		case c01.Flat(got) == c01.Flat(ex.term):
+			c.Undecidedf("R4.expand", key+"/grammar", cc.Pos(), "the expansion of %s performs the same reads in the same order as the parser's grammar but with a different control structure: got `%s`, reference `%s`", typeName[v], got, ex.term)
 		default:
 			c.Failf("R4.expand", key+"/grammar", cc.Pos(), "the expansion of %s reads `%s` from the payload but the parser captured `%s`: elements are mis-framed", typeName[v], got, ex.term)
 		}
@@ -785,7 +913,7 @@ func r6(c *core.Ctx, fns ...*core.Fn) {
 			}
 			// from the call, every path to a successful exit passes a test of err (an edge establishing err == nil) or returns err itself
 			tested := func(b *cfg.Block, s int) bool {
-				return cfgq.EdgeEstablishes(b, s, func(f cfgq.Fact) bool {
+				return g.Establishes(b, s, func(f cfgq.Fact) bool {
 					be, ok := ast.Unparen(f.Expr).(*ast.BinaryExpr)
 					if !ok {
 						return false
